@@ -50,7 +50,9 @@ static RunResult run_c16(const RunSpec &spec) {
             // parse workload: any bytes, any options, stream faults -- totality is C03's business, here only the monitors count
             what = "doc";
             extern RunResult eng_doc_run(const RunSpec &);
-            RunSpec s2 = spec; s2.prop = (spec.run % 3 == 0) ? "C01" : (spec.run % 3 == 1 ? "C03" : "C12");
+            // (C15: handler programs that skip, end and abort the parse -- the clean-up paths behind user callbacks)
+            static const char *const DOCP[] = { "C01", "C03", "C12", "C15", "C03", "C15", "C08", "C11" };
+            RunSpec s2 = spec; s2.prop = DOCP[spec.run % 8];
             // run_seed_of depends on the property name: keep this run's own seed stream by passing the C16 spec through a sub-seed
             s2.seed = hmix(spec.seed, hstr("C16-doc")); res = eng_doc_run(s2);
         } else if (sel < 78) { what = "value"; res = eng_value_run_cfg(spec, prop, false, true); }
